@@ -5,6 +5,7 @@ import SwiftMT.Amount
 import SwiftMT.Headers
 import SwiftMT.Classify
 import SwiftMT.Tokeniser
+import SwiftMT.Fields.Registry
 import Driver.Hex
 /-
 Line-protocol driver over the executable model: one request per line on stdin, one answer per line on
@@ -183,6 +184,13 @@ def handle (args : List String) : String :=
           | .error (.invalid t _) => s!"invalid:{hex t}"
           | .error (.parser e) => s!"err:{perr e}")
     | _, _ => "bad-op"
+  | ["fld", name, i] => match unhex i with
+    | some input => (match Fields.run name input with
+      | some (.ok (ser, j)) => s!"ok {hex ser} {String.ofList j.render}"
+      | some .err => "err"
+      | some .panic => "panic"
+      | none => "#skip")
+    | none => "bad-op"
   | "mp" :: i :: ops => match unhex i with
     | some input => ";".intercalate (mpRun (PState.init input) ops)
     | none => "bad-op"
